@@ -136,6 +136,14 @@ def pilot_entry(e, key):
             isinstance(e.func.value, ast.Subscript) and \
             is_self_attr(e.func.value.value, '_pilots'):
         return e.func.value.slice
+    if isinstance(e, ast.Call) and isinstance(e.func, ast.Attribute) and \
+            e.func.attr == 'get' and e.args and \
+            isinstance(e.args[0], ast.Constant) and e.args[0].value == key and \
+            isinstance(e.func.value, ast.Call) and \
+            isinstance(e.func.value.func, ast.Attribute) and \
+            e.func.value.func.attr == 'get' and e.func.value.args and \
+            is_self_attr(e.func.value.func.value, '_pilots'):
+        return e.func.value.args[0]
     return None
 
 
@@ -518,6 +526,242 @@ def _control_cb(prog, rep, rid, added, removed):
                       message='control_cb: `%s` is reached without the role of '
                       'every pilot of the command having been set to %s'
                       % (short(c, 50), rname), loc=f.loc(c), history=hist)
+
+
+# ------------------------------------------------------------------------------
+# R12.8 (extension of R12.1)  a pilot object read from the table is a real one
+#
+def placeholder_writers(prog):
+    """[(FuncInfo, stmt)]: stores of an entry {.. 'pilot': None ..} into
+    self._pilots which the same function does not complete with a pilot
+    object on every normal path (entries of pilots that were never added)"""
+    out = []
+    seen = set()
+    for rel, cname in (BASE, RR, BF):
+        K = prog.cls(rel, cname)
+        for mname, f in sorted(K.methods.items()):
+            if id(f.node) in seen:
+                continue
+            seen.add(id(f.node))
+            ws = []
+            for n in walk(f.node):
+                if isinstance(n, ast.Assign) and isinstance(n.value, ast.Dict) \
+                        and any(isinstance(t, ast.Subscript) and
+                                is_self_attr(t.value, '_pilots')
+                                for t in n.targets):
+                    for k, v in zip(n.value.keys, n.value.values):
+                        if isinstance(k, ast.Constant) and k.value == 'pilot' \
+                                and isinstance(v, ast.Constant) and \
+                                v.value is None:
+                            ws.append(n)
+            if not ws:
+                continue
+            g = cfg_of(f)
+            smap = I.stmt_node_map(g)
+            fills = [smap[id(st)].id for kind, t, st in I.stores(f.node)
+                     if kind == 'assign' and pilot_entry(t, 'pilot') is not None
+                     and not (isinstance(st.value, ast.Constant) and
+                              st.value.value is None) and id(st) in smap]
+            for w in ws:
+                wn = smap[id(w)]
+                ends = {g.exit.id}
+                if wn.loops:
+                    ends.add(wn.loops[-1])
+                if ends & reach_noeffect(g, nsucc(g, wn.id), fills):
+                    out.append((f, w))
+    return out
+
+
+def _pilot_key_read(v):
+    """task's own pilot: X.get('pilot') / X['pilot']  ->  X name"""
+    if isinstance(v, ast.Call) and isinstance(v.func, ast.Attribute) and \
+            v.func.attr == 'get' and v.args and \
+            isinstance(v.args[0], ast.Constant) and \
+            v.args[0].value == 'pilot' and isinstance(v.func.value, ast.Name):
+        return v.func.value.id
+    if isinstance(v, ast.Subscript) and isinstance(v.slice, ast.Constant) and \
+            v.slice.value == 'pilot' and isinstance(v.value, ast.Name):
+        return v.value.id
+    return None
+
+
+def _only_unbound_callers(prog, f, g, node):
+    """the site lies on a branch `<task's pilot>` is truthy, in a method whose
+    callers (in the scheduler classes) pass only tasks collected on the
+    branch where the task names no pilot: the site is unreachable"""
+    params = [p for p in f.params if p != 'self']
+    if not params:
+        return False
+    bound = False
+    for tid, lab in guards(g, node.id):
+        a = g.nodes[tid].ast
+        if isinstance(a, ast.Name) and lab == 'T':
+            defs, undef = defs_reaching(g, a.id, tid)
+            if not undef and defs and all(
+                    d.kind == 'stmt' and isinstance(d.ast, ast.Assign) and
+                    _pilot_key_read(d.ast.value) is not None for d in defs):
+                tv = _pilot_key_read(defs[0].ast.value)
+                h = enclosing_for(g, node, tv)
+                if h is not None and isinstance(h.ast.iter, ast.Name) and \
+                        h.ast.iter.id == params[0]:
+                    bound = True
+    if not bound:
+        return False
+    callers = 0
+    seen = set()
+    for rel, cname in (BASE, RR, BF):
+        for mname, m in prog.cls(rel, cname).methods.items():
+            if id(m.node) in seen:
+                continue
+            seen.add(id(m.node))
+            for c in calls_in(m.node):
+                if call_name(c) != 'self.' + f.name:
+                    continue
+                callers += 1
+                if not (c.args and isinstance(c.args[0], ast.Name)):
+                    return False
+                L = c.args[0].id
+                mg = cfg_of(m)
+                for dn in [n for n in mg.nodes if L in stores_of(n)]:
+                    if not (dn.kind == 'stmt' and
+                            isinstance(dn.ast, ast.Assign) and
+                            is_empty_ctor(dn.ast.value)):
+                        return False
+                apps = 0
+                for n in mg.nodes:
+                    if n.kind != 'stmt' or n.ast is None:
+                        continue
+                    for cc in calls_in(n.ast):
+                        if isinstance(cc.func, ast.Attribute) and \
+                                cc.func.attr == 'append' and \
+                                isinstance(cc.func.value, ast.Name) and \
+                                cc.func.value.id == L and cc.args and \
+                                isinstance(cc.args[0], ast.Name):
+                            apps += 1
+                            okay = False
+                            for tid, lab in guards(mg, n.id):
+                                a = mg.nodes[tid].ast
+                                if isinstance(a, ast.Name) and lab == 'F':
+                                    ds, ud = defs_reaching(mg, a.id, tid)
+                                    if not ud and ds and all(
+                                            d.kind == 'stmt' and
+                                            isinstance(d.ast, ast.Assign) and
+                                            _pilot_key_read(d.ast.value) ==
+                                            cc.args[0].id for d in ds):
+                                        okay = True
+                            if not okay:
+                                return False
+                if not apps:
+                    return False
+    return callers > 0
+
+
+def r12_8(prog, rep, rid='R12.8'):
+    rep.rule(rid, 'a pilot object read from self._pilots[..][\'pilot\'] and '
+             'handed to _assign_pilot is guarded by its own truth value, by '
+             'role == ADDED of that entry, or its key comes from self._pids; '
+             'membership in self._pilots suffices only if no placeholder '
+             'entries are written', minimum=3)
+    added, removed = role_consts(prog)
+    holders = placeholder_writers(prog)
+    htxt = ', '.join('%s (%s)' % (hf.qual, hf.loc(st)) for hf, st in holders)
+    seen = set()
+    for rel, cname in (BASE, RR, BF):
+        K = prog.cls(rel, cname)
+        for mname, f in sorted(K.methods.items()):
+            if id(f.node) in seen:
+                continue
+            seen.add(id(f.node))
+            calls = assign_calls(f)
+            if not calls:
+                continue
+            g = cfg_of(f)
+            smap = I.stmt_node_map(g)
+            for c in calls:
+                node = smap.get(id(c))
+                p = assign_pilot_arg(c)
+                if node is None or p is None:
+                    continue
+                keys = []           # (key expr, at)
+                pdefs = None
+                if isinstance(p, ast.Name):
+                    defs, undef = defs_reaching(g, p.id, node.id)
+                    pdefs = {d.id for d in defs}
+                    for dn in defs:
+                        if dn.kind == 'stmt' and isinstance(dn.ast, ast.Assign):
+                            k = pilot_entry(dn.ast.value, 'pilot')
+                            if k is not None:
+                                keys.append((k, dn.id))
+                else:
+                    k = pilot_entry(p, 'pilot')
+                    if k is not None:
+                        keys.append((k, node.id))
+                if not keys:
+                    continue        # not read from the table (the command)
+                rep.saw(f)
+                how = None
+                if all(derive(g, k, at) == 'pids' for k, at in keys):
+                    how = 'its key is drawn from self._pids'
+                gs = guards(g, node.id)
+                for tid, lab in gs:
+                    if how:
+                        break
+                    a = g.nodes[tid].ast
+                    pol = lab == 'T'
+                    # truth value of the pilot object itself
+                    if isinstance(p, ast.Name):
+                        same = {d.id for d in defs_reaching(g, p.id, tid)[0]} \
+                            == pdefs
+                        if isinstance(a, ast.Name) and a.id == p.id and pol \
+                                and same:
+                            how = 'it is tested for truth'
+                        if isinstance(a, ast.Compare) and len(a.ops) == 1 and \
+                                isinstance(a.left, ast.Name) and \
+                                a.left.id == p.id and same and \
+                                isinstance(a.comparators[0], ast.Constant) and \
+                                a.comparators[0].value is None:
+                            isnot = isinstance(a.ops[0], (ast.IsNot, ast.NotEq))
+                            if isnot == pol:
+                                how = 'it is tested against None'
+                    # role of the same entry
+                    if classify_role_atom(prog, f, g, a, pol, tid, added) \
+                            == 'ok':
+                        how = 'the role of the entry is ADDED'
+                    # membership, if no placeholders exist
+                    if not holders and isinstance(a, ast.Compare) and \
+                            len(a.ops) == 1 and \
+                            is_self_attr(a.comparators[0], '_pilots') and \
+                            isinstance(a.ops[0], (ast.In, ast.NotIn)) and \
+                            isinstance(a.ops[0], ast.In) == pol and \
+                            any(unparse(a.left) == unparse(k)
+                                for k, _ in keys):
+                        how = 'its key is a member of self._pilots, which ' \
+                              'holds added pilots only'
+                if not how and _only_unbound_callers(prog, f, g, node):
+                    how = 'the branch is unreachable: every caller passes ' \
+                          'only tasks that name no pilot'
+                    rep.info(rid, f, '%s.%s: `%s` lies on a dead branch (%s)'
+                             % (cname, mname, short(c, 50), how), f.loc(c))
+                rep.check(bool(how), rid, f, '%s.%s: the pilot of `%s` is a '
+                          'real pilot object: %s' % (cname, mname,
+                                                     short(c, 50), how),
+                          construct='%s [pilot object from the table]'
+                          % unparse(c),
+                          message='%s.%s: `%s` receives self._pilots[%s]'
+                          '[\'pilot\'] without a test of that object (or of '
+                          'role == ADDED); the entry may be a placeholder with '
+                          'pilot None, written by %s for a pilot that is only '
+                          'known from a state notification: _assign_pilot(task, '
+                          'None) raises and the whole batch is lost instead of '
+                          'the task waiting for its pilot'
+                          % (cname, mname, short(c, 50),
+                             unparse(keys[0][0]), htxt or '<none>'),
+                          loc=f.loc(c),
+                          history='state notification for pilot p1 arrives '
+                          'before add_pilots(p1); work([t]) with t[\'pilot\'] '
+                          '== p1: TypeError in _assign_pilot, t and the rest '
+                          'of the batch are neither forwarded nor kept in '
+                          'self._early')
 
 
 # ------------------------------------------------------------------------------
@@ -1643,6 +1887,7 @@ def run(prog, rep, tier):
     r12_5(prog, rep)
     r12_6(prog, rep)
     r12_7(prog, rep)
+    r12_8(prog, rep)
     if tier == 'thorough':
         rep.rule('R12.4s', 'sweep of R12.4 over every class of the package that '
                  'hands on to TMGR_STAGING_INPUT_PENDING', minimum=0)
@@ -1670,6 +1915,9 @@ FIX_F12 = (_B, _ADV + "\n            # let the scheduler know\n",
            "                        # receive them a second time\n"
            "                        del self._early[pid]\n"
            "\n            # let the scheduler know\n")
+
+_EARLY = ("                    pilot = self._pilots.get(pid, {}).get('pilot')\n"
+          "                    if pilot:\n")
 
 _START = ("                if  rps._pilot_state_value(state) < _BF_START_VAL:\n"
           "                    # not eligible, yet\n                    continue\n\n"
@@ -1783,9 +2031,27 @@ MUTATIONS = [
         (_R, "                    self._idx += 1\n\n", "")]),
     dict(name='R12.7 index advanced twice per task', rules=('R12.7',), edits=[
         (_R, "                    tasks_ok.append(task)\n", "                    tasks_ok.append(task)\n                    self._idx += 1\n")]),
+    dict(name='R12.8 work: early binding by membership in self._pilots (placeholder entries)',
+         rules=('R12.8',), edits=[
+        (_B, _EARLY, "                    if pid in self._pilots:\n                        pilot = self._pilots[pid]['pilot']\n")]),
+    dict(name='R12.8 work: None test inverted', rules=('R12.8',), edits=[
+        (_B, _EARLY, "                    pilot = self._pilots.get(pid, {}).get('pilot')\n                    if pilot is None:\n")]),
+    dict(name='R12.8 work: tests the task\'s pilot id instead of the pilot object',
+         rules=('R12.8',), edits=[
+        (_B, _EARLY, "                    pilot = self._pilots.get(pid, {}).get('pilot')\n                    if pid:\n")]),
+    dict(name='R12.8 work hands tasks of unknown pilots to the scheduler (RoundRobin._work branch becomes live)',
+         rules=('R12.8',), edits=[
+        (_B, "                        if pid not in self._early:\n                            self._early[pid] = list()\n                        self._early[pid].append(task)\n",
+             "                        to_schedule.append(task)\n")]),
 ]
 
 SILENT = [
+    dict(name='work: pilot object tested against None', edits=[
+        (_B, _EARLY, "                    pilot = self._pilots.get(pid, {}).get('pilot')\n                    if pilot is not None:\n")]),
+    dict(name='work: early binding guarded by membership and role == ADDED', edits=[
+        (_B, _EARLY, "                    if  pid in self._pilots \\\n                    and self._pilots[pid]['role'] == ADDED:\n                        pilot = self._pilots[pid]['pilot']\n")]),
+    dict(name='work: entry fetched first, pilot object tested', edits=[
+        (_B, _EARLY, "                    pilot = None\n                    if pid in self._pilots:\n                        pilot = self._pilots[pid]['pilot']\n                    if pilot:\n")]),
     dict(name='F12 repaired (del after the hand-on)', edits=[FIX_F12]),
     dict(name='F12 repaired by popping the entry at the source', edits=[
         (_B, "                    early_tasks = self._early.get(pid)\n",
